@@ -58,6 +58,7 @@ C20_breakRequeues(e, f, o) == (o.op = "ReleasePlayers" /\ o.id \notin DOMAIN e.r
   /\ o.id \notin DOMAIN f.member
   /\ \A p \in SeqSet(o.players) : p \in InQueue(f) \/ (\E t \in DOMAIN f.member : t # o.id /\ p \in f.member[t])
   /\ SeqSet(o.players) = e.member[o.id]
+\* (not demanded by C20, and therefore not a verdict clause: the id of a broken table is not used again - it holds for the code's id scheme)
 C20_idNotReused(e, f, o) == \A k \in 1..Len(o.calls) : o.calls[k].id \notin e.gone
 \* a quiet sync: nothing to release, nothing received, not broken, no callback
 QuietSync(e, f, o) == o.op = "SyncState" /\ o.err = "" /\ o.release = 0 /\ o.handed = <<>> /\ o.calls = <<>> /\ o.id \in DOMAIN f.r.tables
@@ -82,7 +83,7 @@ FailedReg(s, e, f, o, ln, props) ==
   (IF "C19" \in props THEN N("C19.capacity", C19_capacity(e, f, o)) \cup N("C19.noEarlyTable", C19_noEarlyTable(e, f, o))
                            \cup N("C19.initialMin", C19_initialMin(e, f, o)) \cup N("C19.noCallbackWhilePending", C19_noCallbackWhilePending(e, f, o)) ELSE {}) \cup
   (IF "C20" \in props THEN N("C20.breakReleasesAll", C20_breakReleasesAll(e, f, o)) \cup N("C20.breakRequeues", C20_breakRequeues(e, f, o))
-                           \cup N("C20.idNotReused", C20_idNotReused(e, f, o)) \cup N("C20.settles", C20_settles(s, e, ln))
+                           \cup N("C20.settles", C20_settles(s, e, ln))
                            \cup N("C20.settleProtocol", C20_noElimInSettle(s, o, ln)) ELSE {})
 ExercisedReg(s, e, f, o, ln) ==
   {"op." \o o.op \o (IF o.err = "" THEN "" ELSE ".refused")} \cup
